@@ -47,8 +47,14 @@ pub struct ZCase {
     pub prefix: bool,
     /// indexes into TAIL_KEYS typed afterwards
     pub tail: Vec<u8>,
-    /// 0: press the path of entry `which`; 1: only sequential single-key typing over the chord keys
+    /// 0: press the path of entry `which`; 1: only sequential single-key typing over the chord keys;
+    /// 3: slower than the deadline; 5: several episodes (see `episodes`)
     pub scenario: u8,
+    /// each chord of a path is released slowly: all keys but one, 350 ms (longer than the deadline), the last one
+    pub slow_release: bool,
+    /// scenario 5: (kind, selector) - kind 0: the whole path of an entry, 1: the whole path with the last
+    /// chord held longer than the deadline, 2: a single key tapped; full release and 600 ms between them
+    pub episodes: Vec<(u8, u16)>,
 }
 
 pub fn mask_keys(m: u8) -> Vec<usize> {
@@ -80,7 +86,7 @@ impl Case for ZCase {
     fn to_json(&self) -> Value {
         json!({"config": cfg_text(self), "zippy_file": file_text(self),
             "entries": self.entries.iter().map(|e| json!([e.chords, e.out])).collect::<Vec<_>>(),
-            "smart_space": self.smart_space, "which": self.which, "orders": self.orders, "gap": self.gap, "shift": self.shift, "right_shift": self.right_shift, "altgr": self.altgr, "prefix": self.prefix, "tail": self.tail, "scenario": self.scenario})
+            "smart_space": self.smart_space, "which": self.which, "orders": self.orders, "gap": self.gap, "shift": self.shift, "right_shift": self.right_shift, "altgr": self.altgr, "prefix": self.prefix, "tail": self.tail, "scenario": self.scenario, "slow_release": self.slow_release, "episodes": self.episodes})
     }
     fn from_json(v: &Value) -> Option<Self> {
         Some(ZCase {
@@ -104,6 +110,8 @@ impl Case for ZCase {
             prefix: v["prefix"].as_bool().unwrap_or(false),
             tail: v["tail"].as_array()?.iter().filter_map(|x| x.as_u64().map(|y| y as u8)).collect(),
             scenario: v["scenario"].as_u64()? as u8,
+            slow_release: v["slow_release"].as_bool().unwrap_or(false),
+            episodes: v["episodes"].as_array().map(|a| a.iter().filter_map(|e| Some((e[0].as_u64()? as u8, e[1].as_u64()? as u16))).collect()).unwrap_or_default(),
         })
     }
     fn canon_hash(&self) -> u64 {
@@ -209,6 +217,75 @@ fn capitalize_first(s: &str) -> String {
     cs.into_iter().collect()
 }
 
+/// Press and release every chord of an entry's path. `hold_last`: the last chord stays down for 350 ms
+/// (longer than the deadline) before it is released.
+fn press_path(sim: &mut Sim, c: &ZCase, entry: &ZEntry, typed_desc: &mut Vec<String>, hold_last: bool, mut after_activation: impl FnMut(&Sim), classes: &mut Vec<&'static str>) {
+    for (j, m) in entry.chords.iter().enumerate() {
+        let keys = mask_keys(*m);
+        let ps = perms(keys.len());
+        let order = &ps[crate::engine::pick(c.orders.get(j).copied().unwrap_or(0), ps.len())];
+        // slow but in time: the first chord's keys arrive spread over 200 ms (deadline 300)
+        // and stay down for another 200 ms - an activation restarts the deadline
+        let slow = c.gap >= 8 && j == 0 && keys.len() >= 2 && !hold_last;
+        for (n, oi) in order.iter().enumerate() {
+            sim.press(code_of(CHORD_KEYS[keys[*oi]]));
+            typed_desc.push(format!("d:{}", CHORD_KEYS[keys[*oi]]));
+            if slow && n + 1 < order.len() {
+                let g = 200 / (order.len() as u64 - 1);
+                sim.tick_n(g);
+                typed_desc.push(format!("t:{g}"));
+            } else {
+                sim.tick_n(1 + c.gap as u64 % 8);
+            }
+        }
+        sim.tick_n(5);
+        if slow {
+            sim.tick_n(200);
+            typed_desc.push("t:200".into());
+            classes.push("late-but-within-the-deadline");
+        }
+        if hold_last && j + 1 == entry.chords.len() {
+            sim.tick_n(350);
+            typed_desc.push("t:350".into());
+        }
+        after_activation(sim);
+        let n = order.len();
+        for (i, oi) in order.iter().rev().enumerate() {
+            if c.slow_release && n >= 2 && i + 1 == n {
+                // the last key of the chord stays down beyond the deadline
+                sim.tick_n(350);
+                typed_desc.push("t:350".into());
+                classes.push("chord-released-slowly");
+            }
+            sim.release(code_of(CHORD_KEYS[keys[*oi]]));
+            typed_desc.push(format!("u:{}", CHORD_KEYS[keys[*oi]]));
+            sim.tick_n(2);
+        }
+        sim.tick_n(10);
+    }
+}
+
+/// (F50 applies, F49 applies) to the path of `entry`
+fn superseder_flags(c: &ZCase, entry: &ZEntry) -> (bool, bool) {
+    let mut empty_superseder = false;
+    let mut followup_superseder = false;
+    for j in 0..entry.chords.len() {
+        let prefix = &entry.chords[..j];
+        let m = entry.chords[j];
+        let own_line = c.entries.iter().any(|e| e.chords.len() == j + 1 && &e.chords[..j] == prefix && e.chords[j] == m);
+        // a shorter chord of the same level, with its own line or as an implicit node
+        let shorter_sibling = c.entries.iter().any(|e| e.chords.len() > j && &e.chords[..j] == prefix && e.chords[j] != m && e.chords[j] & m == e.chords[j]);
+        let shorter_with_output = c.entries.iter().any(|e| e.chords.len() == j + 1 && &e.chords[..j] == prefix && e.chords[j] != m && e.chords[j] & m == e.chords[j]);
+        if j >= 1 && shorter_sibling {
+            followup_superseder = true;
+        }
+        if j + 1 < entry.chords.len() && !own_line && shorter_with_output {
+            empty_superseder = true;
+        }
+    }
+    (followup_superseder, empty_superseder)
+}
+
 fn judge_case(c: &ZCase) -> Verdict {
     if c.entries.is_empty() {
         return Verdict::discard("empty-dictionary");
@@ -227,6 +304,7 @@ fn judge_case(c: &ZCase) -> Verdict {
     let lsft = code_of(if c.right_shift { "rsft" } else { "lsft" });
     let mut shift_restored_ok = true;
     let mut altgr_restored_ok = true;
+    let (mut ep_f50, mut ep_f49) = (false, false);
     let expected: String;
     if c.scenario % 4 == 3 {
         // the chord's keys pressed too slowly: each more than the deadline (300 ms, not the default) after the
@@ -248,6 +326,91 @@ fn judge_case(c: &ZCase) -> Verdict {
         }
         expected = exp;
         v.classes.push("slower-than-the-deadline");
+    } else if c.scenario == 5 {
+        // several episodes, kanata completely released and idle for 600 ms (idle-reactivate 400) between
+        // them: each must leave exactly its own text behind, whatever the earlier ones did
+        let mut exp = String::new();
+        // the path whose follow-up chords may still be waiting
+        let mut pending: Option<Vec<u8>> = None;
+        // the previous episode added a smart space and nothing has been typed since
+        let mut space_pending = false;
+        let mut space_unknown = false;
+        let mut done = 0;
+        for (kind, sel) in &c.episodes {
+            match kind % 3 {
+                0 | 1 => {
+                    let e = &c.entries[crate::engine::pick(*sel, c.entries.len())];
+                    let has_followups = c.entries.iter().any(|o| o.chords.len() > e.chords.len() && o.chords[..e.chords.len()] == e.chords[..]);
+                    // what a hold beyond the deadline does to waiting follow-ups is not stated
+                    if pending.is_some() || (kind % 3 == 1 && has_followups) {
+                        continue;
+                    }
+                    // smart-space full (documented): punctuation typed right after an activation removes
+                    // the space that activation added - also when it is the first key of the next chord
+                    {
+                        let keys = mask_keys(e.chords[0]);
+                        let ps = perms(keys.len());
+                        let order = &ps[crate::engine::pick(c.orders.first().copied().unwrap_or(0), ps.len())];
+                        if space_unknown && c.smart_space % 3 == 2 && CHORD_KEYS[keys[order[0]]] == "." {
+                            // after a hold beyond the deadline it is not stated whether the space still counts
+                            continue;
+                        }
+                        if space_pending && c.smart_space % 3 == 2 && CHORD_KEYS[keys[order[0]]] == "." {
+                            exp.pop();
+                            v.classes.push("episode:chord-begins-with-punctuation-after-smart-space");
+                        }
+                    }
+                    let mut classes = vec![];
+                    press_path(&mut sim, c, e, &mut typed_desc, kind % 3 == 1, |_| {}, &mut classes);
+                    v.classes.extend(classes);
+                    exp.push_str(&e.out);
+                    space_pending = c.smart_space % 3 != 0 && !e.out.ends_with(' ');
+                    if space_pending {
+                        exp.push(' ');
+                    }
+                    space_unknown = space_pending && kind % 3 == 1;
+                    if space_unknown {
+                        space_pending = false;
+                    }
+                    pending = if has_followups { Some(e.chords.clone()) } else { None };
+                    let (f50, f49) = superseder_flags(c, e);
+                    ep_f50 |= f50;
+                    ep_f49 |= f49;
+                    if kind % 3 == 1 {
+                        v.classes.push("episode:held-beyond-the-deadline");
+                    }
+                }
+                _ => {
+                    // a single key: a, b, c, d, e, f, x, y, z (no punctuation: smart-space)
+                    let names = ["a", "b", "c", "d", "e", "f", "x", "y", "z"];
+                    let name = names[crate::engine::pick(*sel, names.len())];
+                    if let Some(p) = &pending {
+                        // it must not be part of a follow-up chord that is still waiting
+                        let bit = CHORD_KEYS.iter().position(|k| *k == name).map(|i| 1u8 << i).unwrap_or(0);
+                        if c.entries.iter().any(|o| o.chords.len() > p.len() && o.chords[..p.len()] == p[..] && o.chords[p.len()] & bit != 0) {
+                            continue;
+                        }
+                        v.classes.push("episode:lone-key-while-follow-ups-wait");
+                    }
+                    sim.press(code_of(name));
+                    sim.tick_n(1 + c.gap as u64 % 6);
+                    sim.release(code_of(name));
+                    typed_desc.push(format!("tap:{name}"));
+                    exp.push(name.chars().next().unwrap());
+                    pending = None;
+                    space_pending = false;
+                    space_unknown = false;
+                }
+            }
+            sim.tick_n(600);
+            typed_desc.push("t:600".into());
+            done += 1;
+        }
+        if done < 2 {
+            return Verdict::discard("fewer-than-two-episodes");
+        }
+        expected = exp;
+        v.classes.push("episodes");
     } else if c.scenario % 2 == 1 {
         // sequential single-key typing: never a chord
         let mut exp = String::new();
@@ -289,46 +452,33 @@ fn judge_case(c: &ZCase) -> Verdict {
             sim.tick_n(5);
             typed_desc.push("d:ralt".into());
         }
-        for (j, m) in entry.chords.iter().enumerate() {
-            let keys = mask_keys(*m);
-            let ps = perms(keys.len());
-            let order = &ps[crate::engine::pick(c.orders.get(j).copied().unwrap_or(0), ps.len())];
-            // slow but in time: the first chord's keys arrive spread over 200 ms (deadline 300)
-            // and stay down for another 200 ms - an activation restarts the deadline
-            let slow = c.gap >= 8 && j == 0 && keys.len() >= 2;
-            for (n, oi) in order.iter().enumerate() {
-                sim.press(code_of(CHORD_KEYS[keys[*oi]]));
-                typed_desc.push(format!("d:{}", CHORD_KEYS[keys[*oi]]));
-                if slow && n + 1 < order.len() {
-                    let g = 200 / (order.len() as u64 - 1);
-                    sim.tick_n(g);
-                    typed_desc.push(format!("t:{g}"));
-                } else {
-                    sim.tick_n(1 + c.gap as u64 % 8);
-                }
-            }
-            sim.tick_n(5);
-            if slow {
-                sim.tick_n(200);
-                typed_desc.push("t:200".into());
-                v.classes.push("late-but-within-the-deadline");
-            }
-            // shift held by the user is down again after the activation
-            if c.shift || c.altgr {
-                let (_, sh, ag) = text_of(&sim.outs);
-                if c.shift && !sh {
-                    shift_restored_ok = false;
-                }
-                if c.altgr && !ag {
-                    altgr_restored_ok = false;
-                }
-            }
-            for oi in order.iter().rev() {
-                sim.release(code_of(CHORD_KEYS[keys[*oi]]));
-                typed_desc.push(format!("u:{}", CHORD_KEYS[keys[*oi]]));
-                sim.tick_n(2);
-            }
-            sim.tick_n(10);
+        {
+            let mut classes: Vec<&'static str> = vec![];
+            let (sh_held, ag_held) = (c.shift, c.altgr);
+            let (mut sh_ok, mut ag_ok) = (true, true);
+            press_path(
+                &mut sim,
+                c,
+                entry,
+                &mut typed_desc,
+                false,
+                |sim: &Sim| {
+                    // shift / altgr held by the user are down again after the activation
+                    if sh_held || ag_held {
+                        let (_, sh, ag) = text_of(&sim.outs);
+                        if sh_held && !sh {
+                            sh_ok = false;
+                        }
+                        if ag_held && !ag {
+                            ag_ok = false;
+                        }
+                    }
+                },
+                &mut classes,
+            );
+            shift_restored_ok = sh_ok;
+            altgr_restored_ok = ag_ok;
+            v.classes.extend(classes);
         }
         if c.altgr {
             sim.release(code_of("ralt"));
@@ -404,27 +554,10 @@ fn judge_case(c: &ZCase) -> Verdict {
     // F50: at a follow-up level, a chord that extends another chord of that level: the shorter
     // one activates eagerly and replaces the follow-up table by its own, so the longer one is
     // no longer looked up.
-    let mut empty_superseder = false;
-    let mut followup_superseder = false;
-    if c.scenario % 2 == 0 {
-        for j in 0..entry.chords.len() {
-            let prefix = &entry.chords[..j];
-            let m = entry.chords[j];
-            let own_line = c.entries.iter().any(|e| e.chords.len() == j + 1 && &e.chords[..j] == prefix && e.chords[j] == m);
-            // a shorter chord of the same level, with its own line or as an implicit node
-            let shorter_sibling = c.entries.iter().any(|e| e.chords.len() > j && &e.chords[..j] == prefix && e.chords[j] != m && e.chords[j] & m == e.chords[j]);
-            let shorter_with_output = c.entries.iter().any(|e| e.chords.len() == j + 1 && &e.chords[..j] == prefix && e.chords[j] != m && e.chords[j] & m == e.chords[j]);
-            if j >= 1 && shorter_sibling {
-                followup_superseder = true;
-            }
-            if j + 1 < entry.chords.len() && !own_line && shorter_with_output {
-                empty_superseder = true;
-            }
-        }
-    }
+    let (followup_superseder, empty_superseder) = if c.scenario == 5 { (ep_f50, ep_f49) } else if c.scenario % 2 == 0 { superseder_flags(c, entry) } else { (false, false) };
     if got != expected {
         return Verdict::failed(
-            if c.scenario % 2 == 1 { "zippy:non-chord-typing-altered" } else if followup_superseder { "zippy:wrong-text-left:followup-chord-extends-another-followup-chord" } else if empty_superseder { "zippy:wrong-text-left:outputless-chord-extends-a-chord-with-output" } else if got.chars().count() != expected.chars().count() { "zippy:wrong-number-of-characters-left" } else { "zippy:wrong-text-left" },
+            if c.scenario % 2 == 1 && c.scenario != 5 { "zippy:non-chord-typing-altered" } else if followup_superseder { "zippy:wrong-text-left:followup-chord-extends-another-followup-chord" } else if empty_superseder { "zippy:wrong-text-left:outputless-chord-extends-a-chord-with-output" } else if got.chars().count() != expected.chars().count() { "zippy:wrong-number-of-characters-left" } else { "zippy:wrong-text-left" },
             format!("{}\ntext on screen: {got:?}\nexpected      : {expected:?}", describe()),
         );
     }
@@ -441,7 +574,7 @@ fn judge_case(c: &ZCase) -> Verdict {
     if os.anything_down() {
         return Verdict::failed("zippy:key-left-down", format!("{}\nstill down: {:?}", describe(), os.keys.iter().map(|k| out_name(*k)).collect::<Vec<_>>()));
     }
-    v.nontrivial = c.scenario % 2 == 0 && (c.entries.len() >= 2 || c.shift || c.altgr);
+    v.nontrivial = (c.scenario % 2 == 0 || c.scenario == 5) && (c.entries.len() >= 2 || c.shift || c.altgr);
     v
 }
 
@@ -453,7 +586,7 @@ impl TypedProp for C20 {
     fn info(&self) -> PropInfo {
         PropInfo {
             level: "exploration",
-            rule: "dictionaries: 1-5 entries over chord keys a-f and `.`: a first chord of 2-3 keys, 0-2 follow-up chords of 1-2 keys, outputs of 1-6 characters (lower / upper case letters, space, and ! ? ® ß, which output-character-mappings tells zippychord to type as S-1 S-/ AG-r AG-s); a third of the entries extend the previous entry's first chord by one key, half of those also extend its output; smart-space none / add-space-only / full; deadline 300 ms and idle-reactivate 400 ms (both not the defaults). History: mostly a character typed first and zippychord left to re-enable (erasing too much shows); optionally the left or the right shift held, optionally AltGr held as well (one case in five); every chord of the chosen entry's path pressed in a generated order with gaps of 1-8 ms (or, for the first chord, spread over 200 ms and held for another 200 ms: late but within the deadline, which every activation restarts), released, 10 ms pause; shift released; then 0-3 taps of keys that are in no chord (x y z ; ,). A separate scenario types single chord keys one after the other (never two at once), another presses a chord's keys more than the deadline apart. Oracle: the OS output is replayed into a text buffer (characters with the shift and AltGr state - a key typed with a modifier it should not have is a different character -, space, backspace); the text left must be the entry's expansion (first character capitalised when shift is held), plus the smart space where configured (removed again by punctuation in full mode), plus the characters typed afterwards; sequential typing and too-slow chords must come out as typed; a held shift and a held AltGr must be down again after each activation; nothing is left down. Non-trivial: the dictionary has >= 2 entries or shift is held. Distinct: hash of the case.".into(),
+            rule: "dictionaries: 1-5 entries over chord keys a-f and `.`: a first chord of 2-3 keys, 0-2 follow-up chords of 1-2 keys, outputs of 1-6 characters (lower / upper case letters, space, and ! ? ® ß, which output-character-mappings tells zippychord to type as S-1 S-/ AG-r AG-s); a third of the entries extend the previous entry's first chord by one key, half of those also extend its output; smart-space none / add-space-only / full; deadline 300 ms and idle-reactivate 400 ms (both not the defaults). History: mostly a character typed first and zippychord left to re-enable (erasing too much shows); optionally the left or the right shift held, optionally AltGr held as well (one case in five); every chord of the chosen entry's path pressed in a generated order with gaps of 1-8 ms (or, for the first chord, spread over 200 ms and held for another 200 ms: late but within the deadline, which every activation restarts), released, 10 ms pause; shift released; then 0-3 taps of keys that are in no chord (x y z ; ,). A separate scenario types single chord keys one after the other (never two at once), another presses a chord's keys more than the deadline apart. One case in five releases every chord slowly (all keys but one, 350 ms - longer than the deadline -, then the last one). An episodes scenario (one case in five) strings together 2-4 episodes, kanata fully released and idle for 600 ms between them: the whole path of an entry; the whole path with the last chord held 350 ms beyond the deadline (entries without follow-ups); a lone tap of one of a-f x y z that is in no follow-up chord still waiting: each episode must leave exactly its own text (a chord that begins with `.` right after an activation that added a smart space removes that space, as documented for punctuation). Oracle: the OS output is replayed into a text buffer (characters with the shift and AltGr state - a key typed with a modifier it should not have is a different character -, space, backspace); the text left must be the entry's expansion (first character capitalised when shift is held), plus the smart space where configured (removed again by punctuation in full mode), plus the characters typed afterwards; sequential typing and too-slow chords must come out as typed; a held shift and a held AltGr must be down again after each activation; nothing is left down. Non-trivial: the dictionary has >= 2 entries or shift is held. Distinct: hash of the case.".into(),
             assumptions: vec!["a chord's own line precedes the lines that follow it up (the file format rejects the other order)".into(), "with shift held the first character of the expansion is capitalised (documented behaviour)".into()],
             extra: BTreeMap::new(),
         }
@@ -466,7 +599,7 @@ impl TypedProp for C20 {
             },
             exhaustive: false,
             distinct_by_construction: false,
-            required_classes: vec!["single-chord", "follow-up-chord", "extends-a-shorter-chord", "overlapping-dictionary", "shift-held", "right-shift-held", "altgr-held", "altgr-character-in-output", "shifted-symbol-in-output", "smart-space-added", "uppercase-output", "non-chord-typing", "slower-than-the-deadline", "late-but-within-the-deadline"],
+            required_classes: vec!["single-chord", "follow-up-chord", "extends-a-shorter-chord", "overlapping-dictionary", "shift-held", "right-shift-held", "altgr-held", "altgr-character-in-output", "shifted-symbol-in-output", "smart-space-added", "uppercase-output", "non-chord-typing", "slower-than-the-deadline", "late-but-within-the-deadline", "chord-released-slowly", "episodes", "episode:held-beyond-the-deadline", "episode:lone-key-while-follow-ups-wait"],
             hang_secs: 60,
         }
     }
@@ -492,9 +625,9 @@ impl TypedProp for C20 {
             prop::bool::weighted(0.2),
             prop::bool::weighted(0.7),
             prop::collection::vec(0u8..5, 0..4),
-            prop_oneof![15 => Just(0u8), 3 => Just(1u8), 2 => Just(3u8)],
+            (prop_oneof![15 => Just(0u8), 3 => Just(1u8), 2 => Just(3u8), 5 => Just(5u8)], prop::bool::weighted(0.2), prop::collection::vec((0u8..3, any::<u16>()), 2..5)),
         )
-            .prop_map(|(raw, smart_space, which, orders, gap, shift, right_shift, altgr, prefix, tail, scenario)| {
+            .prop_map(|(raw, smart_space, which, orders, gap, shift, right_shift, altgr, prefix, tail, (scenario, slow_release, episodes))| {
                 let mut entries: Vec<ZEntry> = vec![];
                 for (chords, outs, extend) in raw {
                     let mut chords = chords;
@@ -554,6 +687,8 @@ impl TypedProp for C20 {
                     prefix,
                     tail,
                     scenario,
+                    slow_release,
+                    episodes: if scenario == 5 { episodes } else { vec![] },
                 }
             })
             .boxed()
